@@ -90,7 +90,7 @@ def main():
         shutil.copy(os.path.join(ROOT, "target", "debug", "avh"), a)
         shutil.copy(os.path.join(ROOT, "target-hooks", "debug", "avh"), b)
         print("MUTANT %s built in %.0fs: %s" % (name, time.time() - t0, what), flush=True)
-        rc, out = sh(["./check", "C12", "--tier", "quick"], cwd="/verif", env={"C12_MUTANT_AVH": a, "C12_MUTANT_AVH_HOOKS": b})
+        rc, out = sh(["./check", "C12", "--tier", "quick"], cwd="/verif", env={"C12_MUTANT_AVH": a, "C12_MUTANT_AVH_HOOKS": b, "C12_WORKDIR": "panics-mut"})
         viol = [l for l in out.split("\n") if l.startswith("VIOLATION")]
         open(os.path.join(ROOT, "check_%s.log" % name), "w").write(out)
         print("MUTANT %s: exit=%d %s" % (name, rc, viol[:3]), flush=True)
